@@ -765,6 +765,82 @@ func (eng *Engine) execStd(callee *ssa.Function, in ssa.CallInstruction, args []
 		}
 		return []*Env{env}
 	}
+	base := callee.Name()
+	if o := callee.Origin(); o != nil {
+		base = o.Name()
+	}
+	pkgPath := ""
+	if callee.Pkg != nil {
+		pkgPath = callee.Pkg.Pkg.Path()
+	} else if o := callee.Origin(); o != nil && o.Pkg != nil {
+		pkgPath = o.Pkg.Pkg.Path()
+	}
+	runClosure := func(fv AV, cargs []AV, tag string) {
+		if fv.K != KFunc || fv.Fn == nil {
+			return
+		}
+		e := env.clone()
+		for i, f := range fv.Fn.FreeVars {
+			if i < len(fv.Bind) {
+				e.vals[f] = fv.Bind[i]
+			}
+		}
+		eng.pushCtx(eng.siteTag(in) + ":" + tag)
+		eng.runFunction(fv.Fn, e, cargs)
+		eng.popCtx()
+	}
+	elemOf := func(s AV, st types.Type) AV {
+		sl, ok := st.Underlying().(*types.Slice)
+		if !ok {
+			return top()
+		}
+		if s.K == KSlice && s.Obj != 0 {
+			return eng.instantiate(env, eng.readAt(env, s.Obj, s.Path, sl.Elem()), in, "cbelem")
+		}
+		return eng.fromCF(env, defaultCF(sl.Elem(), 0), sl.Elem(), eng.instrKey(in)+":cbelem")
+	}
+	if pkgPath == "slices" && len(args) == 2 {
+		switch base {
+		case "ContainsFunc", "IndexFunc":
+			// the callback is applied to elements of the slice; it cannot modify call-local state that matters here
+			runClosure(args[1], []AV{elemOf(args[0], in.Common().Args[0].Type())}, "cb")
+			if base == "ContainsFunc" {
+				set(env, boolAV(triU))
+			} else {
+				set(env, numTop())
+			}
+			return []*Env{env}
+		case "SortFunc", "SortStableFunc":
+			e1 := elemOf(args[0], in.Common().Args[0].Type())
+			e2 := elemOf(args[0], in.Common().Args[0].Type())
+			runClosure(args[1], []AV{e1, e2}, "cmp")
+			return []*Env{env}
+		}
+	}
+	if name == "(*sync.Once).Do" && len(args) == 2 {
+		// the function runs at most once, possibly in another call: both outcomes
+		fv := args[1]
+		if fv.K == KFunc && fv.Fn != nil {
+			e := env.clone()
+			for i, f := range fv.Fn.FreeVars {
+				if i < len(fv.Bind) {
+					e.vals[f] = fv.Bind[i]
+				}
+			}
+			eng.pushCtx(eng.siteTag(in) + ":once")
+			outs := eng.runFunction(fv.Fn, e, nil)
+			eng.popCtx()
+			res := []*Env{env}
+			for _, o := range outs {
+				for _, vv := range fnValues(fv.Fn) {
+					delete(o.Env.vals, vv)
+				}
+				res = append(res, o.Env)
+			}
+			return res
+		}
+		return []*Env{env}
+	}
 	// receiver of a stdlib method must be non-nil when it is a pointer the method dereferences
 	if callee.Signature.Recv() != nil && len(args) > 0 && args[0].K == KPtr {
 		if !eng.checkNonNil(in, args[0], env, "receiver of "+name, "nil") {
